@@ -6,6 +6,7 @@
 #include <arpa/inet.h>
 
 #include <assert.h>
+#include <stddef.h>
 #include <stdlib.h>
 #include <string.h>
 
@@ -246,11 +247,31 @@ prettyprint_ipv6(struct sockaddr * name, size_t namelen)
 
 /* Prettyprint a UNIX address. */
 static char *
-prettyprint_unix(struct sockaddr_un * name)
+prettyprint_unix(struct sockaddr * name, size_t namelen)
 {
+	const char * path;
+	const char * end;
+	size_t pathlen;
+	char * s;
 
-	/* Just strdup the path. */
-	return (strdup(name->sun_path));
+	/* Check name length. */
+	if (namelen < offsetof(struct sockaddr_un, sun_path))
+		return (NULL);
+
+	/* The path ends at the first NUL byte or at the end of the name. */
+	path = (const char *)name + offsetof(struct sockaddr_un, sun_path);
+	pathlen = namelen - offsetof(struct sockaddr_un, sun_path);
+	if ((end = memchr(path, '\0', pathlen)) != NULL)
+		pathlen = (size_t)(end - path);
+
+	/* Duplicate the path. */
+	if ((s = malloc(pathlen + 1)) == NULL)
+		return (NULL);
+	memcpy(s, path, pathlen);
+	s[pathlen] = '\0';
+
+	/* Success! */
+	return (s);
 }
 
 /**
@@ -272,7 +293,7 @@ sock_addr_prettyprint(const struct sock_addr * sa)
 	case AF_INET6:
 		return (prettyprint_ipv6(sa->name, sa->namelen));
 	case AF_UNIX:
-		return (prettyprint_unix((struct sockaddr_un *)(sa->name)));
+		return (prettyprint_unix(sa->name, sa->namelen));
 	default:
 		return (strdup("Unknown address"));
 	}
